@@ -62,8 +62,15 @@ pub struct C13Case {
 
 const N: usize = 4;
 
+/// The four configured paths are related the ways real path sets are: 2 lies inside 0 (a nested
+/// watch keeps its own registration and recursion mode), 3 is a string-prefix sibling of 0.
 fn path(i: usize) -> PathBuf {
-	PathBuf::from(format!("/vh-c13/p{i}"))
+	PathBuf::from(match i {
+		0 => "/vh-c13/p0".to_string(),
+		2 => "/vh-c13/p0/vendor/lib".to_string(),
+		3 => "/vh-c13/p0x".to_string(),
+		_ => format!("/vh-c13/p{i}"),
+	})
 }
 
 fn kind_of(k: u8) -> Kind {
@@ -235,16 +242,19 @@ pub fn run(c: &C13Case) -> Outcome {
 				other => return Err(("unexpected-runtime-error".into(), format!("{other:?}"))),
 			}
 		}
+		let err_kind = c.err_kind;
 		let mut failed: Vec<(bool, PathBuf)> = world
 			.0
 			.lock()
 			.unwrap()
 			.calls
 			.iter()
-			.filter_map(|c| match c {
-				Call::Watch { ok: false, path, .. } => Some((true, path.clone())),
-				Call::Unwatch { ok: false, path, .. } => Some((false, path.clone())),
-				_ => None,
+			.flat_map(|c| match c {
+				// one error per path the notify error names (the path of the call if it names none)
+				Call::Watch { ok: false, path, .. } => crate::mockwatch::reported_paths(err_kind, path).into_iter().map(|p| (true, p)).collect::<Vec<_>>(),
+				Call::Unwatch { ok: false, path, injected: true, .. } => crate::mockwatch::reported_paths(err_kind, path).into_iter().map(|p| (false, p)).collect(),
+				Call::Unwatch { ok: false, path, .. } => vec![(false, path.clone())],
+				_ => vec![],
 			})
 			.collect();
 		errs.sort();
@@ -331,7 +341,7 @@ fn op() -> impl Strategy<Value = Op> {
 }
 
 fn strategy() -> BoxedStrategy<C13Case> {
-	(proptest::collection::vec((op(), proptest::bool::weighted(0.7)).prop_map(|(op, settle)| Step { op, settle }), 1..12), 0u8..8)
+	(proptest::collection::vec((op(), proptest::bool::weighted(0.7)).prop_map(|(op, settle)| Step { op, settle }), 1..12), 0u8..32)
 		.prop_map(|(steps, err_kind)| C13Case { steps, err_kind })
 		.boxed()
 }
@@ -368,7 +378,7 @@ fn exhaustive(max_len: usize) -> Vec<C13Case> {
 		for s in &next {
 			for settle in [true, false] {
 				// the error kind of injected failures varies with the sequence (not multiplied in)
-				let err_kind = (s.iter().sum::<usize>() % 8) as u8;
+				let err_kind = (s.iter().sum::<usize>() % 32) as u8;
 				out.push(C13Case {
 					steps: s.iter().map(|i| Step { op: alpha[*i].clone(), settle }).collect(),
 					err_kind,
